@@ -56,6 +56,7 @@ type structReport struct {
 	WrittenCaptured []string `json:"written_captured"`
 	ReadCaptured    []string `json:"read_captured"`
 	ChanCaptured    []string `json:"channel_captured"`
+	ObservationOnly []string `json:"observation_only"` // shared state written under ONE local mutex and only printed after the join
 }
 
 type analyser struct {
@@ -1093,6 +1094,23 @@ func analyseStructure(path, fname string, wantRecv bool) (*structReport, error) 
 				})
 			}
 		}
+		// OBSERVATION-ONLY shared state (e.g. the completion order kept for a log line) is not a result
+		joinIdx := -1
+		for k, st := range a.fd.Body.List {
+			if join != nil && st == ast.Stmt(join) {
+				joinIdx = k
+			}
+			if es, ok := st.(*ast.ExprStmt); ok && wg != nil && methodCallOn(es.X, wg.obj, "Wait") {
+				joinIdx = k
+			}
+		}
+		for o := range written {
+			if captured[o] && a.observationOnly(o, s.l.lit, joinIdx) {
+				delete(written, o)
+				rep.ObservationOnly = append(rep.ObservationOnly, o.Name)
+			}
+		}
+		sort.Strings(rep.ObservationOnly)
 		for o := range captured {
 			switch {
 			case written[o]:
@@ -1100,7 +1118,15 @@ func analyseStructure(path, fname string, wantRecv bool) (*structReport, error) 
 			case o == ch:
 				rep.ChanCaptured = append(rep.ChanCaptured, o.Name)
 			default:
-				rep.ReadCaptured = append(rep.ReadCaptured, o.Name)
+				isObs := false
+				for _, n := range rep.ObservationOnly {
+					if n == o.Name {
+						isObs = true
+					}
+				}
+				if !isObs {
+					rep.ReadCaptured = append(rep.ReadCaptured, o.Name)
+				}
 			}
 		}
 		for o := range written {
@@ -1347,4 +1373,350 @@ func (a *analyser) waitGroupJoin(l *launch, loop ast.Stmt, lbody *ast.BlockStmt,
 		}
 	}
 	return w
+}
+
+
+// ---------------------------------------------------------------- observation-only shared state
+
+// a call that only prints: fmt.Print* / fmt.Fprint*(os.Stdout|os.Stderr, ..) / log.Print*, or a function of
+// this package whose body consists only of such calls (possibly under `if`)
+func (a *analyser) isPrintCall(c *ast.CallExpr, depth int) bool {
+	switch f := unparen(c.Fun).(type) {
+	case *ast.SelectorExpr:
+		pk, ok := f.X.(*ast.Ident)
+		if !ok || pk.Obj != nil {
+			return false
+		}
+		n := f.Sel.Name
+		if pk.Name == "fmt" && (n == "Print" || n == "Printf" || n == "Println") {
+			return true
+		}
+		if pk.Name == "log" && (n == "Print" || n == "Printf" || n == "Println") {
+			return true
+		}
+		if pk.Name == "fmt" && (n == "Fprint" || n == "Fprintf" || n == "Fprintln") && len(c.Args) > 0 {
+			t := a.text(c.Args[0])
+			return t == "os.Stdout" || t == "os.Stderr"
+		}
+	case *ast.Ident:
+		if f.Obj != nil && f.Obj.Kind != ast.Fun {
+			return false
+		}
+		if depth > 2 {
+			return false
+		}
+		for _, file := range a.files {
+			for _, d := range file.Decls {
+				if fd, ok := d.(*ast.FuncDecl); ok && fd.Recv == nil && fd.Name.Name == f.Name && fd.Body != nil {
+					if fd.Type.Results != nil && len(fd.Type.Results.List) > 0 {
+						return false
+					}
+					return a.onlyPrints(fd.Body.List, depth+1)
+				}
+			}
+		}
+	}
+	return false
+}
+
+func (a *analyser) onlyPrints(stmts []ast.Stmt, depth int) bool {
+	for _, st := range stmts {
+		switch x := st.(type) {
+		case *ast.ExprStmt:
+			c, ok := unparen(x.X).(*ast.CallExpr)
+			if !ok || !a.isPrintCall(c, depth) {
+				return false
+			}
+		case *ast.IfStmt:
+			if x.Init != nil || !a.onlyPrints(x.Body.List, depth) {
+				return false
+			}
+			if x.Else != nil {
+				eb, ok := x.Else.(*ast.BlockStmt)
+				if !ok || !a.onlyPrints(eb.List, depth) {
+					return false
+				}
+			}
+		default:
+			return false
+		}
+	}
+	return true
+}
+
+// local sync.Mutex that does not escape: only Lock() / Unlock() are called on it
+func (a *analyser) isLocalMutex(o *ast.Object) bool {
+	if o == nil || o.Kind != ast.Var {
+		return false
+	}
+	isM := false
+	if vs, ok := o.Decl.(*ast.ValueSpec); ok && vs.Type != nil && a.text(vs.Type) == "sync.Mutex" {
+		isM = true
+	}
+	if d, ok := a.defs[o]; ok && a.text(d) == "sync.Mutex{}" {
+		isM = true
+	}
+	if !isM {
+		return false
+	}
+	escapes := false
+	var stack []ast.Node
+	ast.Inspect(a.fd.Body, func(n ast.Node) bool {
+		if n == nil {
+			stack = stack[:len(stack)-1]
+			return true
+		}
+		if id, ok := n.(*ast.Ident); ok && id.Obj == o && len(stack) > 1 {
+			okUse := false
+			if sel, ok := stack[len(stack)-1].(*ast.SelectorExpr); ok && sel.X == ast.Expr(id) && (sel.Sel.Name == "Lock" || sel.Sel.Name == "Unlock") {
+				if call, ok := stack[len(stack)-2].(*ast.CallExpr); ok && call.Fun == ast.Expr(sel) {
+					okUse = true
+				}
+			}
+			if _, isDecl := stack[len(stack)-1].(*ast.ValueSpec); isDecl {
+				okUse = true
+			}
+			if as, isAs := stack[len(stack)-1].(*ast.AssignStmt); isAs && as.Tok == token.DEFINE {
+				okUse = true
+			}
+			if !okUse {
+				escapes = true
+			}
+		}
+		stack = append(stack, n)
+		return true
+	})
+	return !escapes
+}
+
+// observationOnly: o is shared state that only OBSERVES the execution (see the header of tools/c05.py):
+// every access inside the goroutine lies in a critical section of one local non-escaping mutex and is an
+// append / element assignment / len(); outside it is read only after the join, only to be printed.
+func (a *analyser) observationOnly(o *ast.Object, lit *ast.FuncLit, joinIdx int) bool {
+	if lit == nil || joinIdx < 0 {
+		return false
+	}
+	// --- critical statements of the literal, per mutex
+	crit := map[ast.Stmt]*ast.Object{}
+	lockCall := func(st ast.Stmt, name string) *ast.Object {
+		es, ok := st.(*ast.ExprStmt)
+		if !ok {
+			return nil
+		}
+		c, ok := unparen(es.X).(*ast.CallExpr)
+		if !ok {
+			return nil
+		}
+		sel, ok := c.Fun.(*ast.SelectorExpr)
+		if !ok || sel.Sel.Name != name {
+			return nil
+		}
+		m := identObj(sel.X)
+		if a.isLocalMutex(m) {
+			return m
+		}
+		return nil
+	}
+	var scan func(list []ast.Stmt, isFuncBody bool)
+	scan = func(list []ast.Stmt, isFuncBody bool) {
+		for k, st := range list {
+			if m := lockCall(st, "Lock"); m != nil {
+				// Lock(); defer Unlock() at the top of a function body: the rest of the body is critical
+				if isFuncBody && k == 0 && len(list) > 1 {
+					if d, ok := list[1].(*ast.DeferStmt); ok && methodCallOn(d.Call, m, "Unlock") {
+						for _, r := range list[2:] {
+							crit[r] = m
+						}
+					}
+				}
+				for j := k + 1; j < len(list); j++ {
+					if lockCall(list[j], "Unlock") == m {
+						if !hasBranch(list[k+1 : j]) {
+							for _, r := range list[k+1 : j] {
+								crit[r] = m
+							}
+						}
+						break
+					}
+				}
+			}
+		}
+		for _, st := range list {
+			ast.Inspect(st, func(n ast.Node) bool {
+				switch b := n.(type) {
+				case *ast.FuncLit:
+					scan(b.Body.List, true)
+					return false
+				case *ast.BlockStmt:
+					scan(b.List, false)
+					return false
+				}
+				return true
+			})
+		}
+	}
+	scan(lit.Body.List, true)
+	// --- every occurrence inside the literal: critical (one mutex) and an allowed use
+	var theMutex *ast.Object
+	ok := true
+	var stack []ast.Node
+	ast.Inspect(lit.Body, func(n ast.Node) bool {
+		if n == nil {
+			stack = stack[:len(stack)-1]
+			return true
+		}
+		if id, isId := n.(*ast.Ident); isId && id.Obj == o {
+			var m *ast.Object
+			for _, anc := range stack {
+				if st, isSt := anc.(ast.Stmt); isSt {
+					if mm, in := crit[st]; in {
+						m = mm
+					}
+				}
+				if fl, isFl := anc.(*ast.FuncLit); isFl && fl != lit {
+					ok = false // captured by another closure
+				}
+			}
+			if m == nil || (theMutex != nil && m != theMutex) {
+				ok = false
+			}
+			theMutex = m
+			// allowed: o = append(o, ..) | o[i] = .. | len(o)
+			parent := stack[len(stack)-1]
+			allowed := false
+			switch p := parent.(type) {
+			case *ast.AssignStmt:
+				// o on the left of  o = append(o, ...)
+				if len(p.Lhs) == 1 && len(p.Rhs) == 1 && p.Lhs[0] == ast.Expr(id) && p.Tok == token.ASSIGN {
+					if c, isC := unparen(p.Rhs[0]).(*ast.CallExpr); isC {
+						if f, isF := c.Fun.(*ast.Ident); isF && f.Name == "append" && f.Obj == nil && len(c.Args) > 0 && identObj(c.Args[0]) == o {
+							allowed = true
+						}
+					}
+				}
+			case *ast.CallExpr:
+				if f, isF := p.Fun.(*ast.Ident); isF && f.Obj == nil {
+					if f.Name == "len" && len(p.Args) == 1 && p.Args[0] == ast.Expr(id) {
+						allowed = true
+					}
+					if f.Name == "append" && len(p.Args) > 0 && p.Args[0] == ast.Expr(id) && len(stack) > 1 {
+						if as, isAs := stack[len(stack)-2].(*ast.AssignStmt); isAs && len(as.Lhs) == 1 && identObj(as.Lhs[0]) == o && as.Tok == token.ASSIGN {
+							allowed = true
+						}
+					}
+				}
+			case *ast.IndexExpr:
+				if p.X == ast.Expr(id) && len(stack) > 1 {
+					if as, isAs := stack[len(stack)-2].(*ast.AssignStmt); isAs && as.Tok == token.ASSIGN {
+						for _, l := range as.Lhs {
+							if l == ast.Expr(p) {
+								allowed = true
+							}
+						}
+					}
+				}
+			}
+			if !allowed {
+				ok = false
+			}
+		}
+		stack = append(stack, n)
+		return true
+	})
+	if !ok || theMutex == nil {
+		return false
+	}
+	// --- the starter: the declaration, and after the join only printing
+	top := a.fd.Body.List
+	for k, st := range top {
+		mentions := false
+		ast.Inspect(st, func(n ast.Node) bool {
+			if n == ast.Node(lit) {
+				return false
+			}
+			if id, isId := n.(*ast.Ident); isId && id.Obj == o {
+				mentions = true
+			}
+			return true
+		})
+		if !mentions {
+			continue
+		}
+		if k < joinIdx {
+			// only the declaration (o := make(..) / var o ..) may mention it before the join
+			isDecl := false
+			switch d := st.(type) {
+			case *ast.AssignStmt:
+				isDecl = d.Tok == token.DEFINE && len(d.Lhs) == 1 && identObj(d.Lhs[0]) == o
+				if isDecl {
+					for _, r := range d.Rhs {
+						ast.Inspect(r, func(n ast.Node) bool {
+							if id, isId := n.(*ast.Ident); isId && id.Obj == o {
+								isDecl = false
+							}
+							return true
+						})
+					}
+				}
+			case *ast.DeclStmt:
+				isDecl = true
+			}
+			// the launch loop itself mentions it only inside the literal (excluded above)
+			if !isDecl {
+				return false
+			}
+			continue
+		}
+		if k == joinIdx {
+			return false
+		}
+		// after the join: a print call, or `for .. range o { print calls }`
+		switch x := st.(type) {
+		case *ast.ExprStmt:
+			c, isC := unparen(x.X).(*ast.CallExpr)
+			if !isC || !a.isPrintCall(c, 0) {
+				return false
+			}
+			// inside the print call: o itself or len(o) as a direct argument, nothing else
+			for _, g := range c.Args {
+				g = unparen(g)
+				if identObj(g) == o {
+					continue
+				}
+				if lc, isL := g.(*ast.CallExpr); isL {
+					if f, isF := lc.Fun.(*ast.Ident); isF && f.Name == "len" && f.Obj == nil && len(lc.Args) == 1 && identObj(lc.Args[0]) == o {
+						continue
+					}
+				}
+				bad := false
+				ast.Inspect(g, func(n ast.Node) bool {
+					if id, isId := n.(*ast.Ident); isId && id.Obj == o {
+						bad = true
+					}
+					return true
+				})
+				if bad {
+					return false
+				}
+			}
+		case *ast.RangeStmt:
+			if identObj(x.X) != o || !a.onlyPrints(x.Body.List, 0) {
+				return false
+			}
+			// the body must not mention o itself (only the range variables)
+			bad := false
+			ast.Inspect(x.Body, func(n ast.Node) bool {
+				if id, isId := n.(*ast.Ident); isId && id.Obj == o {
+					bad = true
+				}
+				return true
+			})
+			if bad {
+				return false
+			}
+		default:
+			return false
+		}
+	}
+	return true
 }
